@@ -286,6 +286,35 @@ def check_track_release(ctx, f, flt):
                "the former owner stays tracked after it released the name", c.where)
 
 
+def driver_rule(ctx, f, new):
+    """O-SENDER:rule-names-driver (added after seeded change C32b). The sender check that protects owner updates lives
+    in MatchRule::matches, so it only exists for a stream whose rule *has* the driver as sender: the rule that
+    SignalStream::new builds for `NameOwnerChanged` must pass the literal "org.freedesktop.DBus" to Builder::sender
+    before it is handed to MessageStream::for_match_rule."""
+    n = 0
+    for b in f.family(new):
+        members = [c for c in mir.calls(b) if c.is_("member") and "match_rule::builder::Builder" in c.callee and len(c.args) > 1
+                   and lit(b, c.args[1]) == "NameOwnerChanged"]
+        for m in members:
+            n += 1
+            senders = [c for c in mir.calls(b) if c.is_("sender") and "match_rule::builder::Builder" in c.callee and len(c.args) > 1
+                       and lit(b, c.args[1]) == DRIVER]
+            ok = any(any(l in mir.derives(b, {c.dest[0]}, through_calls=True) for l in mir.operand_locals(m.args[0])) for c in senders)
+            ctx.ob("O-SENDER", "rule-names-driver:" + b.id, ok,
+                   "the NameOwnerChanged rule is built with sender(\"%s\"): MatchRule::matches then rejects look-alikes from peers" % DRIVER
+                   if ok else "the NameOwnerChanged rule built here has no sender(\"%s\") component: any peer's NameOwnerChanged "
+                   "look-alike reaches the owner-tracking code" % DRIVER, m.where)
+    ctx.floor("O-SENDER", "NameOwnerChanged match rules built in SignalStream::new", n, 1)
+
+
+def lit(body, op):
+    o = mir.origin(body, op)
+    if o[0] == "const" and isinstance(o[1].get("v"), str):
+        return o[1]["v"]
+    k = mir.resolve_const(body, op)
+    return k.get("v") if k is not None and isinstance(k.get("v"), str) else None
+
+
 def run(ctx):
     ctx.explanation = ("MIR rules over zbus (K1): SignalStream::filter accepts only on the true edge of "
                        "`sender == src_unique_name`; poll_next_before yields only on filter's Ok(true) for that message; "
@@ -314,5 +343,6 @@ def run(ctx):
                "owner taken from a NameOwnerChanged message whose sender was never compared with %s (a peer can send a "
                "unicast signal with interface/member NameOwnerChanged; MatchRule::matches does not check well-known "
                "senders) at %s" % (DRIVER, ", ".join(bad)), (bad or [lst[0][1]])[0])
+    driver_rule(ctx, f, new)
     ctx.floor("O-SENDER", "owner updates from NameOwnerChanged in SignalStream::filter", len(per_fn.get(flt.id, [])), 1)
     ctx.floor("O-SENDER", "owner updates from NameOwnerChanged in SignalStream::new", len(per_fn.get(new.id, [])), 2)
